@@ -67,21 +67,22 @@ def mutable_ids(v, seen=None, stop=None):
 
 
 def max_len(v, seen=None):
-    """longest list/dict (and tuple) reachable from v"""
+    """longest list/dict/tuple reachable from v (subclasses such as defaultdict / OrderedDict / list subclasses included; iterative)"""
     if seen is None:
         seen = set()
-    t = type(v)
-    if t is list or t is tuple or t is dict:
-        if id(v) in seen:
-            return 0
-        seen.add(id(v))
-        m = len(v)
-        for x in (v.values() if t is dict else v):
-            tx = type(x)
-            if tx is list or tx is tuple or tx is dict:
-                m = max(m, max_len(x, seen))
-        return m
-    return 0
+    m = 0
+    todo = [v]
+    while todo:
+        v = todo.pop()
+        if isinstance(v, (list, tuple, dict)):
+            if id(v) in seen:
+                continue
+            seen.add(id(v))
+            m = max(m, len(v))
+            for x in (dict.values(v) if isinstance(v, dict) else tuple.__iter__(v) if isinstance(v, tuple) else list.__iter__(v)):
+                if isinstance(x, (list, tuple, dict)):
+                    todo.append(x)
+    return m
 
 
 def fingerprint(v, seen=None, depth=0):
